@@ -80,8 +80,29 @@ def verify_one(job):
         res["stats"]["feasibility_checks"] = v.feas_calls
         res["used_contracts"] = sorted(v.used_contracts)
         axioms = v.global_axioms()
-        timeout = c.timeout or job.get("timeout_ms", 20000)
+        timeout = int(os.environ.get("PYVC_TIMEOUT_MS", 0)) or c.timeout or job.get("timeout_ms", 20000)
+        from .symexec import Obligation
+
+        def conjuncts(g):
+            if z3.is_and(g):
+                out = []
+                for ch in g.children():
+                    out.extend(conjuncts(ch))
+                return out
+            return [g]
+
+        split = []
         for ob in obls:
+            cs = conjuncts(ob.goal)
+            if len(cs) <= 1:
+                split.append(ob)
+            else:
+                # prove the conjuncts one at a time, each one available as a hypothesis for the next
+                hyps = list(ob.hyps)
+                for i, cj in enumerate(cs):
+                    split.append(Obligation(f"{ob.name}.{i}", hyps, cj, ob.kind, ob.lineno, ob.func, dict(ob.extra, clause=f"{ob.extra.get('clause', '')} [conjunct {i}: {str(cj)[:60]}]")))
+                    hyps = hyps + [cj]
+        for ob in split:
             r = smt.discharge(ob, axioms, timeout)
             rec = {"name": ob.name, "kind": ob.kind, "status": r["status"], "time": round(r["time"], 3), "backend": r["backend"],
                    "lineno": ob.lineno, "clause": ob.extra.get("clause", ""), "exc": ob.extra.get("exc"), "reason": r.get("reason", "")}
@@ -126,7 +147,10 @@ def main(argv):
     reg, _, _ = load_contracts()
     jobs = []
     for k in keys:
-        jobs.append({"key": k, "ckey": k, "cls": None, "timeout_ms": 20000})
+        # key  or  key@concrete.class@contract-key
+        parts = k.split("@")
+        jobs.append({"key": parts[0], "ckey": parts[2] if len(parts) > 2 else parts[0], "cls": parts[1] if len(parts) > 1 and parts[1] else None,
+                     "timeout_ms": 20000})
     for res in run_jobs(jobs):
         print("==", res["job"]["key"], res.get("stats"))
         if res["error"]:
